@@ -144,6 +144,11 @@ def cases(tier, seed):
         d.update(geos[nd][1])
         d.update({"fields": ["temp", "density", "Z"], "layout": [None, scope.layouts(2, 'idrev')[-1]] + [None] * 10, "payload": "coded", "time": times[2], "seed": seed})
         out.append({"desc": d, "full": False, "maxlist": 2, "boxes_only": False, "devlevel": None, "w": 30, "twelve_levels": True})
+    # 1100 fields, selected through long NumPy index arrays (their printed form is abbreviated beyond 1000 entries)
+    d = {"ndims": 3, "domain": [4, 2, 2], "levels": [[[[0, 0, 0], [1, 1, 1]], [[2, 0, 0], [3, 1, 1]]]]}
+    d.update(geos[3][0])
+    d.update({"fields": ["w%04d" % i for i in range(1100)], "layout": [scope.layouts(2, 'idrev')[-1]], "payload": "coded", "time": times[0], "seed": seed})
+    out.append({"desc": d, "full": False, "maxlist": 1, "boxes_only": True, "devlevel": 0, "w": 40, "wide1100": True})
     # 131 + 65 binary files on a level (one box per file): more files than any batching threshold
     m = scope.many_file_mesh()
     d = dict(m)
@@ -332,6 +337,20 @@ def run_case(case, workdir):
                     rec.fail("raised", sub, exc_text(val))
                 elif not same(val, exp):
                     rec.fail("values", sub, "wrong data under this task order")
+    # long index arrays that differ in the middle only, one after the other on the same reader (and the same as lists)
+    if case.get("wide1100"):
+        nf_ = len(names)
+        for tag_, conv in (("array", lambda x: np.array(x)), ("list", list)):
+            for drop in (500, 600, 7):
+                idx_ = [i for i in range(nf_) if i != drop]
+                with vpool.controlled():
+                    st, val = call(lambda: pck[conv(idx_)][0][1])
+                rec.exe([dh, "long_index", tag_, drop], nontrivial=True)
+                sub = {"field": [tag_, "all %d fields but number %d" % (nf_, drop)], "level": 0, "box": ["int", 1], "class": "A"}
+                if st == "exc":
+                    rec.fail("raised", sub, exc_text(val))
+                elif not same(val, expected(ref, 0, idx_, 1)):
+                    rec.fail("values", sub, "wrong data for a %d-entry index %s" % (len(idx_), tag_))
     # LAST (it changes what is on disk): level stream objects that the caller keeps while another time step of the same run is
     # moved over the plotfile (every binary file replaced by rename: same names, layout and sizes, new inodes, other values) -
     # a selection returns what is stored on disk NOW
